@@ -143,53 +143,6 @@ def pathJoin (a b : Bytes) : Bytes :=
   else if a.isEmpty then b
   else if a.getLast? == some 47 then a ++ b else a ++ [47] ++ b
 
-/-- output text + origin map (paths as byte lists) -/
-structure Origin' where
-  range : Range
-  src : Option (Bytes × Range)
-deriving Repr, BEq, Inhabited
-
-abbrev OMap' := List (Range × Origin')
-
-def OMap'.insert : OMap' → Range → Origin' → OMap'
-  | [], k, v => [(k, v)]
-  | (k', v') :: rest, k, v =>
-    match k.cmp k' with
-    | .lt => (k, v) :: (k', v') :: rest
-    | .eq => (k', v) :: rest
-    | .gt => (k', v') :: OMap'.insert rest k v
-
-def OMap'.get : OMap' → Range → Option Origin'
-  | [], _ => none
-  | (k', v') :: rest, k =>
-    match k.cmp k' with
-    | .lt => none
-    | .eq => some v'
-    | .gt => OMap'.get rest k
-
-structure POut where
-  text : Bytes := []
-  origins : OMap' := []
-deriving Repr, Inhabited
-
-def POut.push (t : POut) (s : Bytes) (src : Option (Bytes × Range)) : POut :=
-  let r : Range := ⟨t.text.length, t.text.length + s.length⟩
-  { text := t.text ++ s, origins := t.origins.insert r ⟨r, src⟩ }
-
-def POut.merge (t : POut) (o : POut) : POut :=
-  let base := t.text.length
-  { text := t.text ++ o.text,
-    origins := o.origins.foldl (fun m (kv : Range × Origin') =>
-      m.insert (kv.1.offset base) { kv.2 with range := kv.2.range.offset base }) t.origins }
-
-def POut.origin (t : POut) (pos : Nat) : Option (Bytes × Nat) :=
-  match t.origins.get ⟨pos, pos + 1⟩ with
-  | some o =>
-    match o.src with
-    | some (path, r) => some (path, pos - o.range.b + r.b)
-    | none => none
-  | none => none
-
 /-! ### string helpers -/
 
 def isAsciiWs (b : Nat) : Bool := b == 32 || b == 9 || b == 10 || b == 12 || b == 13
